@@ -151,6 +151,12 @@ StringDictionaryHASHRPF::StringDictionaryHASHRPF(IteratorDictString *it, uint,
 unsigned long StringDictionaryHASHRPF::locate(uchar *str, uint strLen) {
   unsigned long id = NORESULT;
 
+  // No member holds the closing symbol (the largest byte plus one) or a
+  // larger byte; such a query would match across two stored strings
+  for (uint i = 0; i < strLen; i++)
+    if (str[i] >= rp->maxchar)
+      return id;
+
   size_t hval = bitwisehash(str, strLen, hash->tsize);
   size_t next;
 
